@@ -1,0 +1,7 @@
+//go:build verif
+
+package transport
+
+// VerifIsPacketEncrypted exposes the encrypted/unencrypted discrimination of ReadMsg to the
+// verification harness (build tag verif only; no behaviour change).
+func VerifIsPacketEncrypted(data []byte) bool { return isPacketEncrypted(data) }
